@@ -1683,6 +1683,10 @@ func c14Run(c *mc.Ctx, cs c14Case) {
 		c14ProfileFile(c, cs.Site)
 		return
 	}
+	if cs.Op == "long-columnwise" {
+		c14LongColumnwise(c, cs.Site)
+		return
+	}
 	if len(cs.Seqs) == 0 {
 		c.Fatal("case without sequences")
 		return
@@ -1942,6 +1946,18 @@ func c14Tasks(tier string) []mc.Task {
 			}
 		}
 	}})
+	ts = append(ts, mc.Task{Name: "long-alignment#columnwise", Run: func(c *mc.Ctx) {
+		var lens []int
+		for l := 5; l <= 40; l++ {
+			lens = append(lens, l)
+		}
+		for _, L := range append(lens, 63, 64, 65, 255, 256, 257) {
+			c14LongColumnwise(c, L)
+			if c.Expired() {
+				return
+			}
+		}
+	}})
 	// reference-relative counts for every pair of symbols: all ordered pairs over the IUPAC nucleotide alphabet in both
 	// cases, '-', '.', '*', '?' (one column; and as the second of two columns), nucleotides and amino acids
 	ts = append(ts, mc.Task{Name: "refrel#symbol-pairs", Run: func(c *mc.Ctx) {
@@ -1978,6 +1994,103 @@ func c14Tasks(tier string) []mc.Task {
 		}})
 	}
 	return ts
+}
+
+// c14LongColumnwise: the per-site statistics of a long alignment are, site by site, those of the column alone
+// (MaxCharStats under the four option pairs, CharStatsSite, Entropy with and without gaps, SiteConservation,
+// the count profile; NbVariableSites and InformativeSites as sums / lists over the columns).  The one-column
+// values are what the enumeration judges; rows of every length 5..40, 63..65, 255..257.
+func c14LongColumnwise(c *mc.Ctx, L int) {
+	c.Eval()
+	cs := c14Case{Op: "long-columnwise", Alpha: align.NUCLEOTIDS, Site: L}
+	viol := func(clause, desc string) {
+		c.Violation("C14/long-alignment/"+clause, fmt.Sprintf("%s (5 rows, %d sites)", desc, L), cs)
+	}
+	seqs := make([]string, 5)
+	for i := range seqs {
+		b := make([]byte, L)
+		for j := range b {
+			b[j] = "ACGT-NacA-"[(i*j+j/3+i*3+(j/7)*(i+1))%10]
+		}
+		seqs[i] = string(b)
+	}
+	type site struct {
+		max   [4]string
+		stats string
+		ent   [2]string
+		cons  string
+		vari  int
+		inf   bool
+	}
+	observe := func(rs []string) (out []site, ok bool) {
+		al, err := mkAlign(align.NUCLEOTIDS, namedRows(rs...))
+		if err != nil {
+			c.Fatal("%v", err)
+			return nil, false
+		}
+		n := len(rs[0])
+		out = make([]site, n)
+		if pn, msg := mc.Guard(func() {
+			for o := 0; o < 4; o++ {
+				ch, occ, tot := al.MaxCharStats(o&1 != 0, o&2 != 0)
+				for j := 0; j < n; j++ {
+					out[j].max[o] = fmt.Sprint(string(ch[j:j+1]), occ[j], tot[j])
+				}
+			}
+			inf := map[int]bool{}
+			for _, j := range al.InformativeSites() {
+				inf[j] = true
+			}
+			for j := 0; j < n; j++ {
+				m, e := al.CharStatsSite(j)
+				out[j].stats = fmt.Sprint(m, e)
+				for g := 0; g < 2; g++ {
+					h, e := al.Entropy(j, g == 1)
+					out[j].ent[g] = fmt.Sprintf("%x %v", math.Float64bits(h), e != nil)
+				}
+				k, e := al.SiteConservation(j)
+				out[j].cons = fmt.Sprint(k, e)
+				out[j].inf = inf[j]
+			}
+			if n == 1 {
+				out[0].vari = al.NbVariableSites()
+			} else {
+				out[0].vari = -al.NbVariableSites() // total, kept negative to tell it from a per-site value
+			}
+		}); pn {
+			viol("panic/"+mc.PanicSite(msg), msg)
+			return nil, false
+		}
+		return out, true
+	}
+	long, ok := observe(seqs)
+	if !ok {
+		return
+	}
+	variable := 0
+	for j := 0; j < L; j++ {
+		col := make([]string, len(seqs))
+		for i := range col {
+			col[i] = seqs[i][j : j+1]
+		}
+		one, ok := observe(col)
+		if !ok {
+			return
+		}
+		variable += one[0].vari
+		a, b := long[j], one[0]
+		a.vari, b.vari = 0, 0
+		if a != b {
+			viol("site-differs-from-the-column-alone", fmt.Sprintf("site %d: in the alignment %+v, the column alone %+v", j, a, b))
+			return
+		}
+	}
+	if -long[0].vari != variable && L > 1 {
+		viol("variable-sites", fmt.Sprintf("NbVariableSites = %d, the columns alone sum to %d", -long[0].vari, variable))
+		return
+	}
+	c.Nontrivial(fmt.Sprintf("long-columnwise|%d", L))
+	c.Outcome("long-alignment:columnwise")
 }
 
 // c14ProfileFile: see the task profile-file#lengths.
@@ -2091,7 +2204,7 @@ func init() {
 	mc.Register(&mc.Prop{
 		ID:    "C14",
 		Level: "model_checking",
-		Rule: cliStreamRule[1:] + "(Also: count profiles read from files of 3..250 sites through countprofile.FromFile - every count, and the per-sequence unique counts against the profile built from the same alignment; reference-relative counts and lists for every ordered pair of symbols over the IUPAC nucleotide alphabet (without U) in both cases and the gap, alone and as second column.) (Free-running complement under the race detector: 8 goroutines doing this property's operations on objects of their own must get the values the same work gives alone.)  Command line: goalign stats gaps (all five modes), compute entropy (-a, -g), stats maxchar and consensus (--ignore-gaps, --ignore-n), stats mutations (--unique, --ref-sequence each of the first two rows) on every 2x2 alignment over {A,C,-,W} and four others, both alphabets: the printed text must be what the documented library calls return, rendered as the command renders it. " + "Alignments (nucleotide and protein alphabet each; W = the alphabet's wildcard, N resp. X): all with L=1, n<=4 rows over {A,a,C,-,N,X,.}; L=2, n<=3 over the same 7 characters; L=3, n=1 over the 7 and n=2 over {A,a,C,-,W}; L=0, n<=2 " +
+		Rule: cliStreamRule[1:] + "(Also: per-site statistics of 5-row alignments of every length 5..40, 63..65, 255..257 equal, site by site, those of the column alone; count profiles read from files of 3..250 sites through countprofile.FromFile - every count, and the per-sequence unique counts against the profile built from the same alignment; reference-relative counts and lists for every ordered pair of symbols over the IUPAC nucleotide alphabet (without U) in both cases and the gap, alone and as second column.) (Free-running complement under the race detector: 8 goroutines doing this property's operations on objects of their own must get the values the same work gives alone.)  Command line: goalign stats gaps (all five modes), compute entropy (-a, -g), stats maxchar and consensus (--ignore-gaps, --ignore-n), stats mutations (--unique, --ref-sequence each of the first two rows) on every 2x2 alignment over {A,C,-,W} and four others, both alphabets: the printed text must be what the documented library calls return, rendered as the command renders it. " + "Alignments (nucleotide and protein alphabet each; W = the alphabet's wildcard, N resp. X): all with L=1, n<=4 rows over {A,a,C,-,N,X,.}; L=2, n<=3 over the same 7 characters; L=3, n=1 over the 7 and n=2 over {A,a,C,-,W}; L=0, n<=2 " +
 			"[thorough adds L=1,n=5 and L=3,n=2 over the 7 characters; L=2,n=4 over {A,a,C,-,W}; L=3,n=3 and L=4,n=2 over {A,C,-,W}]. " +
 			"Per alignment: MaxCharStats and Consensus with all 4 (ignoreGaps,ignoreNs), Entropy for every site in [-1,L] x removeGaps, each call executed under EVERY map iteration order at every map range it reaches (all k! orders for k<=4 keys, the 2k rotations of the sorted and reversed order beyond; unbounded product over the ranges of one call; the same alignment object for all orders), " +
 			"every leaf compared with the naive oracle and all leaves of a call with each other (exact; 1e-12 for Entropy/Pssm); CharStats, CharStatsSeq (index -1..n), CharStatsSite (site -1..L), UniqueCharacters, the count profile (NameAt/NameIndex/Count/CountAt with site -1..L, CheckLength), NbVariableSites, InformativeSites, AvgAllelesPerSite, NumGaps/FromStart/FromEnd/Openning, " +
